@@ -20,7 +20,18 @@ open Clvm Clvm.Interp Clvm.Alloc
 
 /-- the adapters of the core fragment: all consensus adapters, operand lists read like the Python,
 `((X) …)` and opcode 36 outside the domain -/
-def coreAd : Adapters := Adapter.coreFragment (Proto.c01Adapters false)
+def coreAd0 : Adapters := Adapter.coreFragment (Proto.c01Adapters false)
+
+/-- opcodes of the classic operators whose per-operator agreement (`ref_op_eq_*`) is proved -/
+def provedOps : List Nat := [3, 4, 5, 6, 7, 8, 9, 10, 11, 12, 13, 16, 17, 18, 19, 20, 21, 22, 23, 27, 32, 33, 34]
+
+/-- operators that end the comparison for now: everything that is not a proved classic operator —
+`concat` (14), `logand`/`logior`/`logxor` (24–26), every operator the reference treats as unknown
+(and 29, 30 and the newer assigned opcodes, which are outside C01 anyway) -/
+def unprovedOp (ob : Bytes) : Bool := !(provedOps.any (fun k => ob == [UInt8.ofNat k]))
+
+/-- the adapters of the machine-level theorem: core fragment, unproved operators excluded -/
+def coreAd : Adapters := Adapter.restrictOps unprovedOp coreAd0
 
 /-- `ChiaDialect::new(ClvmFlags::empty())` -/
 def dial : Dialect := chiaDialect {} Proto.noExtra 0
@@ -845,6 +856,280 @@ theorem sim (B : Nat) (hA : ApplyCase B) : ∀ (fm fr : Nat) (sr : St) (sm : MSt
               · rw [sh.v]; rfl
               · rw [sh.e]; exact h.me
               · rw [sh.s]; exact h.ms
+
+/-! ### the `Apply` position -/
+
+/-- `eval_pair` does not touch the softfork stack -/
+theorem evalPair_sf {s s' : MState} {p e : Val} {k : Nat} (hp : p.wf = true)
+    (h : evalPair {} dial s p e = .ok (k, s')) : s'.softforkStack = s.softforkStack := by
+  cases p with
+  | atom b i =>
+    rw [evalPair_atom' b i hp] at h
+    obtain ⟨r, _, h⟩ := M_bind_ok h
+    obtain ⟨s1, h1, h⟩ := M_bind_ok h
+    have := M_pure_ok h
+    simp only [Prod.mk.injEq] at this
+    obtain ⟨_, rfl⟩ := this
+    exact (push_ok h1).s
+  | pair o ol =>
+    cases o with
+    | pair X Y =>
+      simp only [evalPair] at h
+      obtain ⟨inner, _, h⟩ := M_bind_ok h
+      split at h
+      · cases h
+      · obtain ⟨s1, h1, h⟩ := M_bind_ok h
+        obtain ⟨s2, h2, h⟩ := M_bind_ok h
+        obtain ⟨s3, h3, h⟩ := M_bind_ok h
+        have := M_pure_ok h
+        simp only [Prod.mk.injEq] at this
+        obtain ⟨_, rfl⟩ := this
+        simp only [MState.pushOp]
+        rw [(push_ok h3).s, (push_ok h2).s, (pushEnv_ok h1).s]
+    | atom ob oi =>
+      simp only [evalPair] at h
+      by_cases hq : smallNumber (Val.atom ob oi) = some dial.quoteKw
+      · unfold evalOpAtom at h
+        simp only [hq, beq_self_eq_true, if_true] at h
+        obtain ⟨s1, h1, h⟩ := M_bind_ok h
+        have := M_pure_ok h
+        simp only [Prod.mk.injEq] at this
+        obtain ⟨_, rfl⟩ := this
+        exact (push_ok h1).s
+      · exact (evalOpAtom_ok hq h).2.2.s
+
+/-- agreement of the two operator tables on one call -/
+def DispRel (m : Nat) (mo : Option (Except Err (Nat × Val × Ctr))) (ro : Res) : Prop :=
+  match mo with
+  | none => ro = .error .outOfDomain
+  | some mo' => ro = .error .outOfDomain ∨ OpAgree m mo' ro
+
+/-- the dispatch tables agree: `ChiaDialect::op` under default flags, outside a guard, against the
+adapted `operator_lookup` (for every operator but `a` and opcode 36, which `apply_op` handles itself) -/
+def DispatchAgree : Prop :=
+  ∀ (ob : Bytes) (oi : Bool) (al : Val) (m : Nat) (c : Ctr),
+    (Val.atom ob oi).wf = true → al.wf = true → Proper al →
+    ob ≠ [UInt8.ofNat 2] → ob ≠ [UInt8.ofNat 36] →
+    DispRel m (dial.op (.atom ob oi) al m .Default c) (coreAd.lookup none operatorLookup ob al.erase)
+
+theorem rloop_succ_apply {B fr cost : Nat} {sr : St} {ops : List Op} (hop : sr.opStack = .apply :: ops)
+    (hg : sr.guards = []) :
+    Ref.runLoop coreAd (some B) (fr + 1) sr cost =
+      rAfter B fr cost (Ref.applyOp coreAd { sr with opStack := ops } cost (some (B - cost))) := by
+  simp only [Ref.runLoop, hop, rAfter, effectiveMax, hg, Option.map]
+  cases Ref.applyOp coreAd _ cost (some (B - cost)) with
+  | error e => rfl
+  | ok r => rfl
+
+theorem rloop_succ_eval {B fr cost : Nat} {sr : St} {ops : List Op} (hop : sr.opStack = .eval :: ops)
+    (hg : sr.guards = []) :
+    Ref.runLoop coreAd (some B) (fr + 1) sr cost = rAfter B fr cost (evalOp coreAd { sr with opStack := ops }) := by
+  simp only [Ref.runLoop, hop, rAfter]
+  cases evalOp coreAd _ with
+  | error e => rfl
+  | ok r => rfl
+
+theorem rloop_succ_eval' (B fr cost : Nat) (ops : List Op) (vals : List Tree) (g : List Guard) (d : Nat) :
+    Ref.runLoop coreAd (some B) (fr + 1) ⟨.eval :: ops, vals, g, d⟩ cost =
+      rAfter B fr cost (evalOp coreAd ⟨ops, vals, g, d⟩) := by
+  simp only [Ref.runLoop, rAfter]
+  cases evalOp coreAd _ with
+  | error e => rfl
+  | ok r => rfl
+
+theorem apply_case (hD : DispatchAgree) (B : Nat) : ApplyCase B := by
+  intro fm fr f K sr sm cost ro mo ih hc h hpend hr hm
+  obtain ⟨hpw, hew, how, haw, hap, ob, oi, hop⟩ := h.fok
+  have hmo : sm.opStack = Operation.Apply :: opsM K := by rw [h.mo]; simp [argsOpsM, hpend]
+  have hmv : sm.valStack = f.acc :: f.operator :: valsM K := by rw [h.mv]; simp [argsValsM, hpend]
+  have hro : sr.opStack = .apply :: opsR K := by rw [h.ro]; simp [argsOpsR, hpend, sec]
+  have hrv : sr.valueStack = f.acc.erase :: f.operator.erase :: valsR K := by rw [h.rv]; simp [argsValsR, hpend]
+  rw [mloop_step B fm cost h.ms hc hmo] at hm
+  simp only [stepOp] at hm
+  rw [applyOp_eq {} dial ({ sm with opStack := opsM K }) cost (B - cost) (ol := f.acc) (o := f.operator)
+    (e0 := f.env) (vals := valsM K) (envs := envsM K) hmv h.me] at hm
+  cases fr with
+  | zero => simp [rloop_zero] at hr
+  | succ fr =>
+  rw [rloop_succ_apply hro h.rg] at hr
+  rw [hop] at hm how
+  -- the model state in which `apply_op` works: operand list, operator and environment popped
+  generalize hsb : MState.applyBase { sm with opStack := opsM K } (valsM K) (envsM K) = sb at hm
+  have sbo : sb.opStack = opsM K := by rw [← hsb]; rfl
+  have sbv : sb.valStack = valsM K := by rw [← hsb]; rfl
+  have sbe : sb.envStack = envsM K := by rw [← hsb]; rfl
+  have sbs : sb.softforkStack = [] := by rw [← hsb]; exact h.ms
+  unfold applyBody at hm
+  by_cases ha : ob = [UInt8.ofNat 2]
+  · -- `(a P E)`
+    have hkm : smallNumber (Val.atom ob oi) = some dial.applyKw := (smallNumber_kw how (by decide) (by decide)).2 ha
+    have hkr : (ob.map UInt8.toNat == [0x02]) = true := (bytes_kw ob 2 (by decide)).2 ha
+    simp only [hkm, beq_self_eq_true, if_true] at hm
+    simp only [Ref.applyOp, hrv, hop, Val.erase, hkr, if_true] at hr
+    unfold applyApply at hm
+    rcases getArgs2_cases f.acc "apply" with ⟨p, e, tb, ti, hacc, hg⟩ | ⟨hn, msg, hg⟩
+    · rw [hg] at hm
+      simp only [liftE, bind, Except.bind] at hm
+      rw [hacc] at hr haw
+      simp only [Val.erase, listLen, Val.wf, Bool.and_eq_true] at hr haw
+      simp only [show ((0 + 1 + 1 : Nat) != 2) = false by decide, Bool.false_eq_true, if_false] at hr
+      rcases rpush_cases coreAd ({ sr with opStack := opsR K, valueStack := valsR K, depth := sr.depth - 2 })
+          (.pair p.erase e.erase) with h1 | h1
+      · rw [h1] at hr
+        simp only [rAfter, Option.some.injEq] at hr
+        subst hr
+        cases mo with
+        | error _ => trivial
+        | ok _ => exact Or.inr rfl
+      · rw [h1] at hr
+        simp only [rAfter, effectiveMax, h.rg] at hr
+        by_cases hgt : cost + APPLY_COST > B
+        · rw [if_pos hgt] at hr
+          simp only [Option.some.injEq] at hr
+          subst hr
+          -- the model must fail as well
+          cases hev : evalPair {} dial sb p e with
+          | error er => rw [hev] at hm; simp only [mAfter, Option.some.injEq] at hm; subst hm; trivial
+          | ok r =>
+            obtain ⟨k, s1⟩ := r
+            rw [hev] at hm
+            simp only [pure, Except.pure, mAfter] at hm
+            have hsf := evalPair_sf haw.1 hev
+            obtain ⟨er, rfl⟩ := mloop_over B fm _ (hsf.trans sbs)
+              (by have : Gen.APPLY_COST = APPLY_COST := rfl; omega) hm
+            trivial
+        · rw [if_neg hgt] at hr
+          cases fr with
+          | zero => simp [rloop_zero] at hr
+          | succ fr =>
+            rw [rloop_succ_eval'] at hr
+            have hst := (eval_agree K h.ok p e haw.1 haw.2.1
+              ({ opStack := opsR K, valueStack := .pair p.erase e.erase :: valsR K, guards := [], depth := sr.depth - 2 + 1 })
+              sb rfl rfl rfl sbo sbv sbe sbs (cost + APPLY_COST) B).to'
+            refine after_agree ih hst hr ?_
+            cases hev : evalPair {} dial sb p e with
+            | error er => rw [hev] at hm; exact hm
+            | ok r =>
+              obtain ⟨k, s1⟩ := r
+              rw [hev] at hm
+              simp only [pure, Except.pure, mAfter] at hm ⊢
+              have : cost + APPLY_COST + k = cost + (k + Gen.APPLY_COST) := by
+                have : Gen.APPLY_COST = APPLY_COST := rfl
+                omega
+              rw [this]; exact hm
+    · rw [hg] at hm
+      simp only [liftE, bind, Except.bind, mAfter, Option.some.injEq] at hm
+      subst hm
+      rw [if_pos (by simpa using hn)] at hr
+      simp only [rAfter, Option.some.injEq] at hr
+      subst hr
+      trivial
+  · have hkm : (smallNumber (Val.atom ob oi) == some dial.applyKw) = false := by
+      cases hb : (smallNumber (Val.atom ob oi) == some dial.applyKw) with
+      | false => rfl
+      | true =>
+        have hb' : smallNumber (Val.atom ob oi) = some 2 := beq_iff_eq.1 hb
+        exact absurd ((smallNumber_kw how (by decide) (by decide)).1 hb') ha
+    have hkr : (ob.map UInt8.toNat == [0x02]) = false := by
+      cases hb : (ob.map UInt8.toNat == [0x02]) with
+      | false => rfl
+      | true => exact absurd ((bytes_kw ob 2 (by decide)).1 hb) ha
+    simp only [hkm, Bool.false_eq_true, if_false] at hm
+    simp only [Ref.applyOp, hrv, hop, Val.erase, hkr, Bool.false_eq_true, if_false, coreAd_coreOnly, Bool.true_and] at hr
+    by_cases hs : ob = [UInt8.ofNat 36]
+    · -- opcode 36 is outside the fragment
+      have hsr : (ob.map UInt8.toNat == [0x24]) = true := (bytes_kw ob 36 (by decide)).2 hs
+      simp only [hsr, if_true, rAfter, Option.some.injEq] at hr
+      subst hr
+      cases mo with
+      | error _ => trivial
+      | ok _ => exact Or.inl rfl
+    · -- an ordinary operator
+      have hsm : (smallNumber (Val.atom ob oi) == some dial.softforkKw) = false := by
+        cases hb : (smallNumber (Val.atom ob oi) == some dial.softforkKw) with
+        | false => rfl
+        | true =>
+          have hb' : smallNumber (Val.atom ob oi) = some 36 := beq_iff_eq.1 hb
+          exact absurd ((smallNumber_kw how (by decide) (by decide)).1 hb') hs
+      have hsr : (ob.map UInt8.toNat == [0x24]) = false := by
+        cases hb : (ob.map UInt8.toNat == [0x24]) with
+        | false => rfl
+        | true => exact absurd ((bytes_kw ob 36 (by decide)).1 hb) hs
+      simp only [hsm, Bool.false_eq_true, if_false] at hm
+      simp only [hsr, Bool.false_eq_true, if_false, h.rg, List.head?_nil, Option.map_none, coreAd_lenient] at hr
+      have hrr : rAfter B fr cost
+          (match coreAd.lookup none operatorLookup ob f.acc.erase with
+           | .error e => .error e
+           | .ok (additionalCost, r) =>
+             match St.push coreAd ({ opStack := opsR K, valueStack := valsR K, guards := [], depth := sr.depth - 2 }) r with
+             | .error e => .error e
+             | .ok st => .ok (additionalCost, st)) = some ro := by
+        cases hsf : coreAd.softfork with
+        | none => rw [hsf] at hr; exact hr
+        | some cfg => rw [hsf] at hr; exact hr
+      clear hr
+      have hce : curExt sb = .Default := by simp [curExt, sbs]
+      unfold applyOrdinary at hm
+      rw [hce] at hm
+      have hd := hD ob oi f.acc (B - cost) sb.ctr how haw hap ha hs
+      refine after_agree ih ?_ hrr hm
+      unfold DispRel at hd
+      cases hmo' : dial.op (Val.atom ob oi) f.acc (B - cost) OperatorSet.Default sb.ctr with
+      | none =>
+        rw [hmo'] at hd
+        rw [hd]; trivial
+      | some mres =>
+        rw [hmo'] at hd
+        rcases hd with hd | hd
+        · rw [hd]
+          cases mres with
+          | error e => trivial
+          | ok r =>
+            obtain ⟨oc, v, c'⟩ := r
+            simp only
+            cases ({ sb with ctr := c' } : MState).push v with
+            | error e => trivial
+            | ok s1 => exact Or.inl rfl
+        · cases hro' : coreAd.lookup none operatorLookup ob f.acc.erase with
+          | error e =>
+            rw [hro'] at hd
+            obtain ⟨e', he', _⟩ := hd
+            rw [he']; trivial
+          | ok rr =>
+            obtain ⟨rc, t⟩ := rr
+            rw [hro'] at hd
+            simp only
+            rcases hd with ⟨v, ctr, hok, hve, hvw⟩ | ⟨hlt, hce'⟩ | ⟨e, hee, hl⟩
+            · rw [hok]
+              simp only
+              rcases rpush_cases coreAd ({ opStack := opsR K, valueStack := valsR K, guards := [], depth := sr.depth - 2 }) t
+                with h1 | h1
+              · rw [h1]
+                cases ({ sb with ctr := ctr } : MState).push v with
+                | error e => trivial
+                | ok s1 => exact Or.inr rfl
+              · rw [h1]
+                cases hpm : ({ sb with ctr := ctr } : MState).push v with
+                | error e => exact Or.inl (push_err hpm)
+                | ok s1 =>
+                  have sh := push_ok hpm
+                  refine ⟨rfl, Or.inl ⟨K, v, ⟨rfl, ?_, rfl, ?_, ?_, ?_, ?_, hvw, h.ok⟩⟩⟩
+                  · simp only [hve]
+                  · rw [sh.o]; exact sbo
+                  · rw [sh.v]; simp only [sbv]
+                  · rw [sh.e]; exact sbe
+                  · rw [sh.s]; exact sbs
+            · rw [hce']
+              simp only
+              rcases rpush_cases coreAd ({ opStack := opsR K, valueStack := valsR K, guards := [], depth := sr.depth - 2 }) t
+                with h1 | h1
+              · rw [h1]; trivial
+              · rw [h1]; exact Or.inr ⟨by omega, rfl⟩
+            · rw [hee]
+              simp only
+              cases St.push coreAd ({ opStack := opsR K, valueStack := valsR K, guards := [], depth := sr.depth - 2 }) t with
+              | error e' => trivial
+              | ok st => exact Or.inl (Or.inl hl)
 
 /-! ### whole runs -/
 
